@@ -221,7 +221,7 @@ func TestVerif_C09_SignedTokens(t *testing.T) {
 		group := rapid.SampledFrom(groupNames).Draw(t, "group")
 		host := rapid.SampledFrom([]string{"", "galene.example.org", "galene.example.org:8443"}).Draw(t, "canonicalHost")
 		factors := []string{"sig-notinset", "alg-none", "alg-confuse", "kid-mismatch", "exp-missing", "exp-past", "nbf-future", "iat-future",
-			"host", "path-sibling", "path-ancestor-nosub", "path-noslash", "path-descendant", "badkey-in-set"}
+			"host", "path-sibling", "path-ancestor-nosub", "path-noslash", "path-descendant", "badkey-in-set", "aud-split"}
 		nbreak := rapid.SampledFrom([]int{0, 0, 1, 1, 1, 2}).Draw(t, "nbreak")
 		broken := map[string]bool{}
 		for i := 0; i < nbreak; i++ {
@@ -315,6 +315,18 @@ func TestVerif_C09_SignedTokens(t *testing.T) {
 			pth = strings.TrimSuffix(pth, "/")
 		}
 		auds := []string{"https://" + audHost + pth}
+		if broken["aud-split"] {
+			// no single audience names both this server and this group: one entry has the right host and another
+			// group, another entry the right group on another server
+			rightHost := "galene.example.org"
+			if host != "" {
+				rightHost = host
+			}
+			auds = []string{"https://" + rightHost + "/group/" + group + "-elsewhere/", "https://evil.example.org" + pth}
+			if rapid.Bool().Draw(t, "splitOrder") {
+				auds[0], auds[1] = auds[1], auds[0]
+			}
+		}
 		if rapid.Bool().Draw(t, "extraAud") {
 			auds = append([]string{"https://other.example.org/group/zzz/", "::not a url"}, auds...)
 		}
@@ -379,6 +391,10 @@ func TestVerif_C09_SignedTokens(t *testing.T) {
 				accept = accept && !badKeyMatters
 			case "host":
 				// without a configured canonical host any host is accepted
+				accept = accept && host == ""
+			case "aud-split":
+				// the entry naming the group is on another server: only acceptable when no canonical host is configured
+				// (and nothing else about the path is broken, which the other factors decide)
 				accept = accept && host == ""
 			default:
 				accept = false
